@@ -1,5 +1,6 @@
 import ButlerModel.Driver.C11
 import ButlerModel.Driver.C15
+import ButlerModel.Driver.C12
 /-! Line-protocol driver: one request per line on stdin, one reply per line on stdout.
 The first token selects the model. -/
 
@@ -8,6 +9,7 @@ def dispatch (line : String) : String :=
   match toks with
   | "ts" :: rest => Driver.C11.handle rest
   | "pred" :: rest => Driver.C15.handle rest
+  | "dim" :: rest => Driver.C12.handle rest
   | _ => "bad-op"
 
 partial def loop (h : IO.FS.Stream) (out : IO.FS.Stream) : IO Unit := do
